@@ -23,6 +23,7 @@ ASSUMPTIONS = ["wall-clock ordering of callbacks relative to item side effects b
                "tokio::spawn runs the coroutine to completion; FnOnce close callbacks are at-most-once by type"]
 
 EXE = R.EXECUTOR
+STATS = "stream_executor::StreamExecutorStats"
 CALLS = ("std::ops::FnOnce::call_once", "std::ops::Fn::call", "std::ops::FnMut::call_mut")
 
 
@@ -347,6 +348,41 @@ def check(ctx):
             if rule in ("R11.3", "R11.6"): return super().undecided(rule, key, site, detail)
     C11.check(OnlyPanics(ctx, "R12.6"))
     ctx.floor("R12.6", 10)
+
+    # ------------------------------------------------------------------ R12.8 what the close callback can see of the executor is what the executor recorded
+    # the callback receives `Arc<dyn StreamExecutorStats>`: the status and the two times reach it only through these accessors.  Each answers the atomic load of its
+    # own field and nothing else (a finish accessor turned into "finish - start" is no longer on the start accessor's time base: the callback finds a finish
+    # time before the start time for an executor that ran for less time than it waited to start)
+    n8 = 0
+    for fld in ("execution_start_delta_nanos", "execution_finish_delta_nanos", "executor_status"):
+        k8 = f"{EXE} as {STATS}::{fld}"
+        f8 = fx.fn_opt(k8)
+        if f8 is None: continue
+        b8 = Body(f8); d8 = D.Dag(b8)
+        r = strip_casts(d8.local(0))
+        ok8 = (r[0] == "atomic" and r[1] == "load" and tuple(r[2])[-1:] == (fld,)) or (r[0] == "ref" and tuple(r[1])[-1:] == (fld,))
+        n8 += 1
+        ctx.ob("R12.8", f"{k8}|answers-its-own-field", ok8, f"{f8['file']}:{f8['line']}", f"answers `{show(r)[:90]}`; required: the atomic load of (or a reference to) `{fld}`, unchanged")
+    ctx.floor("R12.8", 3)
+
+    # ------------------------------------------------------------------ R12.9 'scheduled to finish' is reported BEFORE the stream is told to end
+    # report_scheduled_to_finish() is a plain store: issued after the end request it lands on an executor that already went Running -> StreamEnded and entered its
+    # close callback, and overwrites the ended state for good (the still-running callback finds its executor in a non-ended state)
+    ENDERS = ("gracefully_end_stream", "gracefully_end_all_streams", "cancel_all_streams", "cancel_stream", "end_stream", "end_all_streams", "close")
+    n9 = 0
+    for f in fx.fns:
+        rep = [blk for blk in f["blocks"] if blk["term"][0] == "Call" and blk["term"][1].get("fname") == "report_scheduled_to_finish"]
+        if not rep or f["key"].startswith(EXE): continue
+        body = Body(f)
+        reps = [b for (b, c) in body.calls if c.get("fname") == "report_scheduled_to_finish"]
+        ends = [b for (b, c) in body.calls if c.get("fname") in ENDERS]
+        for rb in reps:
+            late = [eb for eb in ends if rb in body.reach_from(eb)]
+            n9 += 1
+            ctx.ob("R12.9", f"{f['key']}|scheduled-before-end-request", not late, body.loc(rb),
+                   "the executor is marked ScheduledToFinish before its stream is asked to end" if not late else
+                   "report_scheduled_to_finish() can run after the end request: by then the executor may already be in an ended state, which this plain store overwrites")
+    ctx.floor("R12.9", 1)
 
 
 def _variant(e):
